@@ -162,6 +162,117 @@ def r3_bounded_channels(chk):
         r.require(cfg, 8, "channel constructors")
 
 
+# relay loops: (body regex, buffer debug name, fetch-call regex, kind of evidence, reason)
+RELAY_BUFFERS = [
+    (r"socket::core::inproc_reader::spawn::\{closure#0\}$", "out", r"Receiver.*::(recv|try_recv_batch_mut)$", "path",
+     "complete messages waiting for room in the socket's pipe: must be empty before the next batch is taken from the peer's queue"),
+    (r"socket::core::inproc_reader::spawn::\{closure#0\}$", "drain_buf", r"Receiver.*::recv$", "path",
+     "scratch for one batch: drained before the next blocking recv"),
+    (r"sessionx::actor::SessionConnectionActorX::run_loop::\{closure#0\}$", "ingress_buffer", r"ZmqMessageProcessor::read_and_process$", "guard",
+     "decoded messages waiting for the socket's pipe: the network-read arm is enabled only while it is empty"),
+]
+# buffers of the same census that are bounded by other rules
+RELAY_ELSEWHERE = {
+    ("run_loop", "core_carryover"): "C01 R1: the pipe from the core is read only while the carry-over queue is empty",
+    ("run_loop", "outgoing_batch"): "per-cycle scratch: cleared at the start of each egress arm and filled up to max_count (C01 R2 census)",
+}
+
+
+def _buffer_local(body, name, ty_rx=r"^std::(collections::VecDeque|vec::Vec)<"):
+    names, _ = body.names
+    for l, n in names.items():
+        if n == name and re.match(ty_rx, body.locals[l]):
+            return l
+    return None
+
+
+def r4_relay_buffers(chk):
+    from rules.c04 import _ref_root, _path_to
+    r = chk.rule("R4", "a relay takes more from its bounded source only when its own message buffer is empty", "T4 must-pass-through / T3 guarded-by",
+                 "every message buffer (VecDeque/Vec of FrameBatch) that a relay loop fills from a bounded channel or from the network is provably empty when the loop fetches again: "
+                 "all paths from a push to the next fetch pass through pop==None / clear() / drain(..) / is_empty()==true, or the fetch arm is guarded by is_empty(); "
+                 "otherwise the relay's private queue grows without bound while both neighbouring queues stay within their high-water marks")
+    for cfg, prog in chk.configs():
+        # census: message buffers grown inside loops that also fetch
+        found = set()
+        for b in prog.bodies.values():
+            if "::tests" in b.path or not b.kind.startswith("coroutine"):
+                continue
+            fetch = [c for c in b.calls if ((c.name in ("recv", "try_recv_batch_mut", "recv_many") and "Receiver" in c.callee) or c.name == "read_and_process") and b.loops_containing(c.blk)]
+            if not fetch:
+                continue
+            for c in b.calls:
+                if c.name in ("push_back", "push", "extend", "push_front", "append") and c.args and b.loops_containing(c.blk):
+                    l = _ref_root(b, c.args[0])
+                    if l is not None and re.match(r"^std::(collections::VecDeque|vec::Vec)<message::FrameBatch", b.locals[l]):
+                        found.add((b.path, b.names[0].get(l, str(l))))
+        for path, name in sorted(found):
+            fn = strip_generics(path)
+            if any(re.search(rx, fn) and nm == name for rx, nm, _, _, _ in RELAY_BUFFERS):
+                continue
+            ew = [v for (k1, k2), v in RELAY_ELSEWHERE.items() if k1 in fn and k2 == name]
+            key = "%s|%s is a reviewed relay buffer" % (short(path), name)
+            if ew:
+                r.ok(cfg, key, fn, ew[0])
+            else:
+                r.bad(cfg, key, fn, "a relay loop fills the message buffer `%s` and nothing in the reviewed table bounds it" % name)
+        for rx, name, fetch_rx, kind, why in RELAY_BUFFERS:
+            for body in prog.find_bodies(rx):
+                key = "%s|%s empty before %s" % (short(body.path), name, fetch_rx.split("::")[-1].rstrip("$").strip("()"))
+                B = _buffer_local(body, name)
+                fetches = [c for c in body.calls if c.matches(fetch_rx)]
+                if B is None or not fetches:
+                    r.bad(cfg, key, where(body, 0), "buffer `%s` or its fetch site not found (anchor missing)" % name)
+                    continue
+                on_b = lambda c: c.args and _ref_root(body, c.args[0]) == B
+                if kind == "guard":
+                    okf = 0
+                    for f in fetches:
+                        gs = list(body.guards(f.blk))
+                        # the fetch is the future of a select! arm: its precondition guards the poll
+                        for sel in body.selects:
+                            for k, o in sel.futures.items():
+                                org = body.value_origin(o)
+                                if org[0] == "call" and org[1].blk == f.blk:
+                                    gs += body.select_arm_guards(sel, k)
+                        if any(g.atom[0] == "call" and g.atom[1].name == "is_empty" and on_b(g.atom[1]) and g.truth is True for g in gs):
+                            okf += 1
+                        else:
+                            r.bad(cfg, key, where(body, f.blk), "the fetch is not guarded by %s.is_empty(): %s" % (name, why))
+                    if okf == len(fetches):
+                        r.ok(cfg, key, where(body, fetches[0].blk), "%d fetch site(s) under %s.is_empty()" % (okf, name))
+                    continue
+                grows = [c for c in body.calls if c.name in ("push_back", "push", "extend", "push_front", "append") and on_b(c) and c.target is not None]
+                avoid_blocks = set(c.blk for c in body.calls if c.name in ("clear", "drain") and on_b(c))
+                avoid_edges = set()
+                for s in range(body.n):
+                    if body.term(s)["k"] != "switch":
+                        continue
+                    a, pol = body.switch_atom(s)
+                    if a[0] == "call" and a[1].name == "is_empty" and on_b(a[1]):
+                        avoid_edges.add((s, body.bool_edge_label(s, pol)))
+                    if a[0] == "discr" and a[2].startswith("std::option::Option<"):
+                        org = body.value_origin({"c": "copy", "p": {"l": a[3]["l"], "pr": [], "s": "", "ty": ""}})
+                        if org[0] == "call" and org[1].name in ("pop_front", "pop_back", "pop") and on_b(org[1]):
+                            avoid_edges.add((s, body.label_for(s, 0)))
+                fetch_blocks = set(f.blk for f in fetches)
+                bad = None
+                for g in grows:
+                    reach = body.reachable([g.target], avoid_blocks=avoid_blocks, avoid_edges=avoid_edges)
+                    hit = sorted(reach & fetch_blocks)
+                    if hit:
+                        path = _path_to(body, [g.target], hit[0], avoid_blocks, avoid_edges)
+                        bad = (g, [body.term(x)["sp"].split("/")[-1] for x in path if body.term(x)["k"] == "switch"])
+                        break
+                if not grows:
+                    r.bad(cfg, key, where(body, 0), "no push into `%s` found (anchor missing)" % name)
+                elif bad:
+                    r.bad(cfg, key, where(body, bad[0].blk), "after %s.%s(..) the loop can fetch again while `%s` still holds messages (branches: %s): %s" % (name, bad[0].name, name, " -> ".join(bad[1][-4:]), why))
+                else:
+                    r.ok(cfg, key, where(body, grows[0].blk), "%d push site(s); every path to the next fetch empties the buffer" % len(grows))
+        r.require(cfg, 4, "relay buffers")
+
+
 def run(chk):
     chk.undecided = ["elapsed-time bounds of send/recv", "the numeric buffering bound per connection"]
     r1_minus_one_waits(chk)
@@ -169,3 +280,4 @@ def run(chk):
     r1c_owned_returns_batch(chk)
     r2_recv_mapping(chk)
     r3_bounded_channels(chk)
+    r4_relay_buffers(chk)
